@@ -580,7 +580,7 @@ func c04Random(ctx *core.Ctx, out *core.Out) {
 	ex := rdExec{RB: r.BufSize(), Chunk: r.Intn(xport.NChunkStyles), Mode: r.Intn(3), Server: server, Comp: comp}
 	desc := map[string]interface{}{"prefix": framesDesc(frames, 16), "in_message": inMsg, "frame": f, "kind": kind, "exec": ex}
 	if ex.Mode == 2 {
-		c04Abandon(ctx, out, stream0(frames, nf, server, r), exp, complete, inMsg, ex, kind, desc)
+		c04Abandon(ctx, out, stream0(frames, nf, server, r), frames, exp, complete, inMsg, ex, kind, desc)
 		return
 	}
 	out.Eval(fmt.Sprintf("rnd|%x|%s", core.Hash(string(stream)), core.J(ex)), true)
@@ -638,11 +638,9 @@ func c04Random(ctx *core.Ctx, out *core.Out) {
 		fail("earlier-message-lost", fmt.Sprintf("%d messages were complete before the violation, %d were delivered; then %v", complete, delivered, termErr))
 		return
 	}
-	for _, hv := range rd.Handlers {
-		if hv.Payload == markerPing || (nf.Op >= 8 && len(nf.Payload) > 0 && hv.Payload == string(nf.Payload)) {
-			fail("handler-called-for-violating-frame", fmt.Sprintf("handler %d invoked with the payload of the violating frame or of a later frame", hv.Kind))
-			return
-		}
+	if msg := c04HandlerLog(rd.Handlers, frames); msg != "" {
+		fail("handler-called-for-violating-frame", msg)
+		return
 	}
 	for i := 0; i < 3; i++ {
 		if _, _, e := c.NextReader(); e == nil || e.Error() != termErr.Error() {
@@ -686,7 +684,7 @@ func stream0(frames []wire.Frame, nf wire.Frame, server bool, r interface{ Fill(
 // c04Abandon: the application abandons messages (reads a prefix or nothing and
 // calls NextReader again). The violating frame must still be refused: the number
 // of messages NextReader hands out cannot exceed those begun before it.
-func c04Abandon(ctx *core.Ctx, out *core.Out, stream []byte, exp []Ev, complete int, inMsg bool, ex rdExec, kind string, desc map[string]interface{}) {
+func c04Abandon(ctx *core.Ctx, out *core.Out, stream []byte, prefixFrames []wire.Frame, exp []Ev, complete int, inMsg bool, ex rdExec, kind string, desc map[string]interface{}) {
 	r := ctx.R
 	out.Eval(fmt.Sprintf("rnd-abandon|%x|%s", core.Hash(string(stream)), core.J(ex)), true)
 	fail := func(sig, what string) {
@@ -732,11 +730,9 @@ func c04Abandon(ctx *core.Ctx, out *core.Out, stream []byte, exp []Ev, complete 
 		fail("violation-accepted", "no error was reported for a stream with a framing violation (application abandons messages)")
 		return
 	}
-	for _, hv := range rd.Handlers {
-		if hv.Payload == markerPing {
-			fail("handler-called-for-violating-frame", "the ping after the violating frame reached its handler")
-			return
-		}
+	if msg := c04HandlerLog(rd.Handlers, prefixFrames); msg != "" {
+		fail("handler-called-for-violating-frame", msg)
+		return
 	}
 	wf, _, _ := wire.Decode(nc.Written())
 	closes := 0
@@ -754,4 +750,29 @@ func c04Abandon(ctx *core.Ctx, out *core.Out, stream []byte, exp []Ev, complete 
 		return
 	}
 	out.Count("close_1002_seen", 1)
+}
+
+// c04HandlerLog compares the handler invocations with the control frames of the
+// conformant prefix: exactly those, in order, nothing from the violating frame
+// or after it.
+func c04HandlerLog(got []HandlerEv, prefix []wire.Frame) string {
+	var want []wire.Frame
+	for _, f := range prefix {
+		if f.Op == 9 || f.Op == 10 {
+			want = append(want, f)
+		}
+	}
+	if len(got) > len(want) {
+		extra := got[len(want)]
+		return fmt.Sprintf("%d control handlers ran but the conformant prefix holds only %d control frames; the extra call is opcode %d with %d payload bytes (from the violating frame or a later one)", len(got), len(want), extra.Kind, len(extra.Payload))
+	}
+	for i, g := range got {
+		if g.Kind != want[i].Op || g.Payload != string(want[i].Payload) {
+			return fmt.Sprintf("handler call %d is opcode %d with %d bytes, the prefix's control frame %d is opcode %d with %d bytes", i, g.Kind, len(g.Payload), i, want[i].Op, len(want[i].Payload))
+		}
+	}
+	if len(got) < len(want) {
+		return fmt.Sprintf("only %d of the %d control frames that precede the violating frame reached their handlers", len(got), len(want))
+	}
+	return ""
 }
